@@ -69,7 +69,7 @@ ObsStep(o, ev) ==
                         !.dangling = @ \/ ev.src >= o.n \/ (ev.on = "edge" /\ <<ev.src, ev.dst>> \notin o.edges)]
     [] OTHER -> o
 RECURSIVE ObsFold(_, _, _)
-ObsFold(evs, i, o) == IF i > Len(evs) THEN o ELSE ObsFold(evs, i + 1, ObsStep(o, evs[i]))
+ObsFold(evs, i, o) == IF i > Len(evs) THEN o ELSE LET o1 == ObsStep(o, evs[i]) IN ObsFold(evs, i + 1, o1)
 
 PollCount(chunk, pb) ==
   LET labels == {chunk[k].at : k \in {j \in 1..Len(chunk) : chunk[j].e = "poll"}} IN
